@@ -7,6 +7,27 @@ PROPS = [json.loads(l) for l in open('/verif/properties.jsonl')]
 # property -> (engine, category, technique, level text, level note, design ref)
 LP = "lazy-program exhaustive exploration of the real crate + spec monitor"
 CHECKS = {
+ "C01": ("cobweb-mc", "model_checking", LP,
+         "Histories of register (new reactor in each mode / existing reactor) / revoke / fire / despawn over trigger groups that share keys (broadcast + entity event + any-entity-event on one event type; insertion + mutation tables of one component, type-wide and entity-scoped; resource + entity-scoped), at top level (depth D) and from reactor bodies while a dispatch is in flight (budget N). Every fire must produce exactly one reaction command per live matching registration in the abstract table (none missing, none foreign) and the implementation's tables (hook snapshot) must equal the abstract table at every quiescent point.",
+         "Bounded (D<=3/N<=3 quick, D<=5/N<=4 thorough); two separate revokable registrations of one reactor for one trigger are not generated.", "DESIGN.md 5 C01"),
+ "C06": ("cobweb-mc", "model_checking", LP,
+         "C01's histories with multi-trigger bundles (pair across kinds, pair of one kind, triple including a despawn trigger) and revocation at every position (top level, in-tree, twice, of a dead reactor); after a revoke the very next fire must not reach the revoked (reactor, trigger) and all other registrations must be unchanged (dispatch + table cross-check).",
+         "Bounded (D<=3/N<=3 quick, D<=5/N<=4 thorough).", "DESIGN.md 5 C06"),
+ "C07": ("cobweb-mc", "model_checking", LP,
+         "Histories of registering new reactors (3 modes x 7 bundles incl. empty, despawn triggers, entity triggers possibly naming dead entities), revoke, fire, despawn of trigger entities, explicit Gc / Poll, fires from inside runs. Liveness of every reactor is sampled at every command marker and compared with an abstract reference count (live registrations + pending despawn reactions); after the first garbage collection following count 0 the reactor must be gone and its captured canary dropped; persistent reactors must always exist.",
+         "Bounded (D<=4 quick, D<=6 thorough); several ref-counted registrations of one system command are documented as unsupported and not generated.", "DESIGN.md 5 C07"),
+ "C08": ("cobweb-mc", "model_checking", LP,
+         "Histories of insert / remove / re-insert / despawn / recursive despawn (entity 1 is a child of entity 0) at top level and inside reactor runs, with type-wide and entity-scoped removal reactors, one or two despawn reactors per entity, a reactor registered mid-history; polls explicit ('flush') or by App::update after every top-level op ('frames', Last schedule). A hook reports when a poll schedules a reaction; the monitor requires a cause for every scheduled reaction (an unreacted removal / despawn for a registration live at that moment), at most one per registration per event, every registration live throughout reacted by the end of the enclosing tree / next poll, and every scheduled reaction run by quiescence.",
+         "Bounded (D<=4 quick, D<=6 thorough); system order inside a frame is represented by operation order (see assumptions in the evidence).", "DESIGN.md 5 C08"),
+ "C14": ("cobweb-mc", "model_checking", LP,
+         "Every accessor (get_mut, set_if_neq equal/different, get_noreact, read, trigger_mutation, trigger_resource_mutation, ReactCommands::insert with value 0/1) on entities that are alive, lack the component, or are despawned between queuing and applying, 1..3 calls per run, with a probe reactor registered type-wide and entity-scoped: reaction count per call (dispatch rule), stored component / resource values (sampled at every marker) must match the abstract state.",
+         "Bounded (N<=3 quick, N<=5 thorough); accessors are exercised through ReactiveMut / ReactResMut in a syscall issued by the command.", "DESIGN.md 5 C14"),
+ "C15": ("cobweb-mc", "model_checking", LP,
+         "Histories of one-off reactors (7 bundles incl. empty and multi-trigger), fires at top level and from inside runs (self-triggering, several triggers in one tree), revoke at any point, Gc: at most one run, entity gone and no registration left afterwards (dispatch + table cross-check + liveness), dropped without running for an empty bundle.",
+         "Bounded (D<=4 quick, D<=6 thorough).", "DESIGN.md 5 C15"),
+ "C18": ("cobweb-mc", "model_checking", "exhaustive fault enumeration (despawn points x operations) by lazy-program exploration of the real crate + spec monitor",
+         "Every public operation naming a system, reactor or entity (run, system event, entity event, insert, mutate, trigger, remove, register existing/new reactor with entity and despawn triggers, revoke) combined with despawns of its target at every point the lazy-program enumeration can place them (before queuing, between queuing and applying, after scheduling, while postponed, during the target's own run), singly and in pairs up to the budget: no panic, nothing runs for a dead target, payloads released, other registrations intact (table cross-check).",
+         "Bounded (N<=3 quick, N<=4 thorough).", "DESIGN.md 5 C18"),
  "C02": ("cobweb-mc", "model_checking", LP,
          "Every program with at most N chosen operations over {Run, SysEvent, DespawnSys}x3 actors + Broadcast (preset listeners; plain, erring and exclusive systems; one or two trees) is executed on the real crate; the spec monitor requires for every command the runner reaches exactly one of run / postponed-while-busy / dropped-because-dead, exactly one run per obligation, and nothing pending when the flush returns.",
          "Bounded (N<=4 quick, N<=6 thorough); hooks only observe; harness marker commands are plain closures.", "DESIGN.md 5 C02"),
